@@ -83,21 +83,11 @@ def IsChunking (cs : List Bytes) (s : Bytes) : Prop := cs.flatten = s
 
 /-! ### urlencoded -/
 
-def hexDigitU (n : Nat) : UInt8 := if n < 10 then UInt8.ofNat (48 + n) else UInt8.ofNat (55 + n)
-
-def isUnreserved (c : UInt8) : Bool :=
-  (decide (48 ≤ c.toNat) && decide (c.toNat ≤ 57)) || (decide (65 ≤ c.toNat) && decide (c.toNat ≤ 90))
-  || (decide (97 ≤ c.toNat) && decide (c.toNat ≤ 122)) || c == 45 || c == 95 || c == 46 || c == 126
-
-/-- percent-encode everything but unreserved characters -/
-def pctEncode (s : Bytes) : Bytes :=
-  s.flatMap fun c => if isUnreserved c then [c] else [37, hexDigitU (c.toNat / 16), hexDigitU (c.toNat % 16)]
-
-/-- `k1=v1&k2=v2...` -/
-def encodeForm : List (Bytes × Bytes) → Bytes
+/-- `k1=v1&k2=v2…` with keys and values written by the percent-encoder `enc` -/
+def encodeFormWith (enc : Bytes → Bytes) : List (Bytes × Bytes) → Bytes
   | [] => []
-  | [(k, v)] => pctEncode k ++ [61] ++ pctEncode v
-  | (k, v) :: rest => pctEncode k ++ [61] ++ pctEncode v ++ [38] ++ encodeForm rest
+  | [(k, v)] => enc k ++ [61] ++ enc v
+  | (k, v) :: rest => enc k ++ [61] ++ enc v ++ [38] ++ encodeFormWith enc rest
 
 end Spec
 end Cppcms.C12
